@@ -192,9 +192,10 @@ Definition call_C (o : rop) (s : ctl) : ctl * list rop :=
 Definition call_S (k : cfg) (o : rop) (s : ctl) : ctl * list rop :=
   if gate_outside k && negb (connected s) then (s, [])
   else if s_once s =? Fresh then (set_s_once Running (set_s_pc 0 s), [o]) else (s, []).
-(** the caller of serverSocket.onClose may go on: body finished (or the call returned at the gate) *)
-Definition ret_S (k : cfg) (s : ctl) : bool :=
-  (s_once s =? Done) || (gate_outside k && negb (connected s)).
+(** the call returns at once (socket not connected, gate before the once): the caller does not wait *)
+Definition gate_hit (k : cfg) (s : ctl) : bool := gate_outside k && negb (connected s).
+(** a caller that went into closeOnce.Do goes on when the body has finished *)
+Definition ret_S (k : cfg) (s : ctl) : bool := s_once s =? Done.
 
 Definition upd (f : ctl -> ctl) (x : ctl * list rop) : ctl * list rop := (f (fst x), snd x).
 Definition plain (s : ctl) : option (ctl * list rop) := Some (s, []).
@@ -258,7 +259,7 @@ Definition cstep (k : cfg) (a : act) (s : ctl) : option (ctl * list rop) :=
       else if c_pc s =? 1 then (* sockets.getAndRemoveAll() *)
         plain (set_c_pc 2 (set_c_snap (in_csock s) (set_in_csock false s)))
       else if c_pc s =? 2 then (* for each socket: socket.onClose(reason); then closePacketQueue, parser.Reset *)
-        if c_snap s then Some (upd (set_c_pc 3) (call_S k CopyCS s)) else plain (set_c_once Done s)
+        if c_snap s && negb (gate_hit k s) then Some (upd (set_c_pc 3) (call_S k CopyCS s)) else plain (set_c_once Done s)
       else if ret_S k s then plain (set_c_once Done s) else None
   (* ---- serverSocket.onClose(reason), body of closeOnce ---- *)
   | ASbody =>
@@ -291,7 +292,7 @@ Definition cstep (k : cfg) (a : act) (s : ctl) : option (ctl * list rop) :=
       else if a_pc s =? 3 then (* socket.onConnect under connectedMu: Join(own id); CONNECT reply; connected = true; go connection handlers *)
         plain (set_a_pc 4 (set_connected true (set_ever_conn true (set_h_pc 1 (set_own_room true s)))))
       else if a_pc s =? 4 then (* back in serverConn.connect (fixed code): if c.closed { socket.onClose(c.closeReason) } *)
-        if recheck k && c_closed s then Some (upd (set_a_pc 5) (call_S k CopyCS s)) else plain (set_a_pc 6 s)
+        if recheck k && c_closed s && negb (gate_hit k s) then Some (upd (set_a_pc 5) (call_S k CopyCS s)) else plain (set_a_pc 6 s)
       else if a_pc s =? 5 then
         if ret_S k s then plain (set_a_pc 6 s) else None
       else None
@@ -324,7 +325,7 @@ Definition cstep (k : cfg) (a : act) (s : ctl) : option (ctl * list rop) :=
   | ACause CPingTimeout => Some (call_E RPingTimeout s)
   | ACause CServerClose =>
       if p_srv s =? 0 then (* for each socket of s.Sockets(): socket.onClose(server shutting down) *)
-        if in_nsp s then Some (upd (set_p_srv 1) (call_S k (SetS RServerShuttingDown) s)) else plain (set_p_srv 2 s)
+        if in_nsp s && negb (gate_hit k s) then Some (upd (set_p_srv 1) (call_S k (SetS RServerShuttingDown) s)) else plain (set_p_srv 2 s)
       else if p_srv s =? 1 then
         if ret_S k s then plain (set_p_srv 2 s) else None
       else if p_srv s =? 2 then (* eio.Close: closed flag; store.closeAll: socket.Close() *)
